@@ -65,7 +65,9 @@ func (s *hPoints) Next() *base.InternalKV {
 	}
 	return s.at()
 }
-func (s *hPoints) NextPrefix(succKey []byte) *base.InternalKV { return s.SeekGE(succKey, base.SeekGEFlagsNone) }
+func (s *hPoints) NextPrefix(succKey []byte) *base.InternalKV {
+	return s.SeekGE(succKey, base.SeekGEFlagsNone)
+}
 func (s *hPoints) Prev() *base.InternalKV {
 	if s.i >= 0 {
 		s.i--
